@@ -1131,7 +1131,8 @@ func length(v interface{}) (int, error) {
 
 	switch value := v.(type) {
 	case string:
-		return len(value), nil
+		// The length of a string is its number of characters, as a for loop sees them
+		return utf8.RuneCountInString(value), nil
 	case []interface{}:
 		return len(value), nil
 	case map[string]interface{}:
@@ -1141,7 +1142,9 @@ func length(v interface{}) (int, error) {
 	// Use reflection for other types
 	rv := reflect.ValueOf(v)
 	switch rv.Kind() {
-	case reflect.Array, reflect.Slice, reflect.Map, reflect.String:
+	case reflect.String:
+		return utf8.RuneCountInString(rv.String()), nil
+	case reflect.Array, reflect.Slice, reflect.Map:
 		return rv.Len(), nil
 	}
 
@@ -1374,7 +1377,9 @@ func (e *CoreExtension) filterCapitalize(value interface{}, args ...interface{})
 	words := strings.Fields(s)
 	for i, word := range words {
 		if len(word) > 0 {
-			words[i] = strings.ToUpper(word[0:1]) + strings.ToLower(word[1:])
+			// Upper-case the first character (not the first byte), lower-case the rest
+			_, width := utf8.DecodeRuneInString(word)
+			words[i] = strings.ToUpper(word[:width]) + strings.ToLower(word[width:])
 		}
 	}
 
@@ -1391,7 +1396,9 @@ func (e *CoreExtension) filterTitle(value interface{}, args ...interface{}) (int
 	words := strings.Fields(s)
 	for i, word := range words {
 		if len(word) > 0 {
-			words[i] = strings.ToUpper(word[0:1]) + strings.ToLower(word[1:])
+			// Upper-case the first character (not the first byte), lower-case the rest
+			_, width := utf8.DecodeRuneInString(word)
+			words[i] = strings.ToUpper(word[:width]) + strings.ToLower(word[width:])
 		}
 	}
 
@@ -1405,8 +1412,9 @@ func (e *CoreExtension) filterFirst(value interface{}, args ...interface{}) (int
 
 	switch v := value.(type) {
 	case string:
-		if len(v) > 0 {
-			return string(v[0]), nil
+		// The first character, not the first byte
+		for _, char := range v {
+			return string(char), nil
 		}
 		return "", nil
 	case []interface{}:
@@ -1420,9 +1428,8 @@ func (e *CoreExtension) filterFirst(value interface{}, args ...interface{}) (int
 	rv := reflect.ValueOf(value)
 	switch rv.Kind() {
 	case reflect.String:
-		s := rv.String()
-		if len(s) > 0 {
-			return string(s[0]), nil
+		for _, char := range rv.String() {
+			return string(char), nil
 		}
 		return "", nil
 	case reflect.Array, reflect.Slice:
@@ -1448,8 +1455,10 @@ func (e *CoreExtension) filterLast(value interface{}, args ...interface{}) (inte
 
 	switch v := value.(type) {
 	case string:
+		// The last character, not the last byte
 		if len(v) > 0 {
-			return string(v[len(v)-1]), nil
+			_, width := utf8.DecodeLastRuneInString(v)
+			return v[len(v)-width:], nil
 		}
 		return "", nil
 	case []interface{}:
@@ -1465,7 +1474,8 @@ func (e *CoreExtension) filterLast(value interface{}, args ...interface{}) (inte
 	case reflect.String:
 		s := rv.String()
 		if len(s) > 0 {
-			return string(s[len(s)-1]), nil
+			_, width := utf8.DecodeLastRuneInString(s)
+			return s[len(s)-width:], nil
 		}
 		return "", nil
 	case reflect.Array, reflect.Slice:
